@@ -196,6 +196,13 @@ func runC18(cfg *config, res *monitor.Result) {
 					break
 				}
 				opts := []csproto.JSONOption{csproto.JSONIndent(indent), csproto.JSONUseEnumNumbers(enumNums), csproto.JSONIncludeZeroValues(emitZero)}
+				if (oi+ci)%3 == 0 {
+					// option lists are built by appending to defaults: an option given twice takes its LAST value, also when
+					// that value is the one that switches the feature off
+					other := indents[(oi/4*2+ci+1)%len(indents)]
+					opts = append([]csproto.JSONOption{csproto.JSONIndent(other), csproto.JSONUseEnumNumbers(!enumNums), csproto.JSONIncludeZeroValues(!emitZero)}, opts...)
+					classes["option-given-twice/marshal/"+t.pkg.Flavour]++
+				}
 				if (oi+ci)%2 == 1 {
 					// a shared option list: the options of the unmarshaling side (set to the opposite values) have no
 					// documented effect on marshaling
@@ -280,6 +287,9 @@ func runC18(cfg *config, res *monitor.Result) {
 						evals++
 						b3 := t.pkg.New(t.md.FullName())
 						uopts := []csproto.JSONOption{csproto.JSONAllowUnknownFields(allow)}
+						if ci%3 == 0 {
+							uopts = []csproto.JSONOption{csproto.JSONAllowUnknownFields(!allow), csproto.JSONAllowUnknownFields(allow)} // the last one counts
+						}
 						if ci%2 == 0 {
 							// ... and the options of the marshaling side have none on unmarshaling
 							uopts = append(uopts, csproto.JSONUseEnumNumbers(!allow), csproto.JSONIncludeZeroValues(!allow), csproto.JSONIndent(" "))
@@ -309,6 +319,9 @@ func runC18(cfg *config, res *monitor.Result) {
 							for _, allow := range []bool{false, true} {
 								evals++
 								popts := []csproto.JSONOption{csproto.JSONAllowPartialMessages(allow)}
+								if ci%3 == 0 {
+									popts = []csproto.JSONOption{csproto.JSONAllowPartialMessages(!allow), csproto.JSONAllowPartialMessages(allow)} // the last one counts
+								}
 								if ci%2 == 1 {
 									popts = append(popts, csproto.JSONIncludeZeroValues(!allow), csproto.JSONUseEnumNumbers(!allow))
 								}
